@@ -81,25 +81,57 @@ var kvBackends = []kvBackend{
 }
 
 type kvInst struct {
-	be     kvBackend
-	keys   [][]byte
-	table  string
-	dir    string
-	raw    dbm.DB // underlying store
-	db     dbm.DB // store under test (raw or prefixed view)
-	batch  dbm.Batch
-	step   int
-	guard  [][2][]byte // neighbour keys outside the prefixed view (must stay untouched)
-	skip0  bool        // do not touch abstract key 1 in observations (behaviours that avoid the empty key on bolt/badger)
-	noIter bool        // stop comparing iterators (after the sharded-iteration finding was recorded)
+	be          kvBackend
+	keys        [][]byte
+	table       string
+	dir         string
+	raw         dbm.DB // underlying store
+	db          dbm.DB // store under test (raw or prefixed view)
+	batch       dbm.Batch
+	step        int
+	guard       [][2][]byte // neighbour keys outside the prefixed view (must stay untouched)
+	skipStatics bool
+	allKeys     [][]byte // the whole table (keys beyond the abstract key set seed the statics)
+	skip0       bool     // do not touch abstract key 1 in observations (behaviours that avoid the empty key on bolt/badger)
+	noIter      bool     // stop comparing iterators (after the sharded-iteration finding was recorded)
 }
 
 func (in *kvInst) open() {
 	in.raw = dbm.NewDB("kv", in.be.backend, in.dir, in.be.counts)
 	in.db = in.raw
 	if in.be.prefix != nil {
-		in.db = dbm.NewPrefixDB(in.raw, in.be.prefix)
+		// the caller's prefix slice has spare capacity, as one built with append usually has
+		p := make([]byte, len(in.be.prefix), len(in.be.prefix)+32)
+		copy(p, in.be.prefix)
+		in.db = dbm.NewPrefixDB(in.raw, p)
 	}
+}
+
+// statics are keys outside the abstract key set that every store holds from the start with
+// a fixed value: for every table key k ending in 0xFF the key just above the end of k's
+// prefix range (succ(k without its last byte) followed by 0x00), and k followed by 0x01.
+// They sit where an off-by-one in a range bound would pick them up.
+func (in *kvInst) statics() (out []kvPair) {
+	seen := map[string]bool{}
+	for _, k := range in.keys {
+		seen[string(k)] = true
+	}
+	add := func(k []byte) {
+		if !seen[string(k)] && len(k) > 0 {
+			seen[string(k)] = true
+			out = append(out, kvPair{k, []byte("static")})
+		}
+	}
+	for _, k := range in.allKeys {
+		if len(k) > 0 && k[len(k)-1] == 0xff {
+			if end := prefixEnd(k); end != nil { // (computed here, not with the code under test)
+				add(append(append([]byte{}, end...), 0x00))
+			}
+			add(append(append([]byte{}, k...), 0x01))
+		}
+	}
+	sort.Slice(out, func(i, j int) bool { return bytes.Compare(out[i].K, out[j].K) < 0 })
+	return
 }
 
 func (in *kvInst) reset() error {
@@ -119,12 +151,29 @@ func (in *kvInst) reset() error {
 		var below, above []byte
 		below = append(append([]byte{}, p[:len(p)-1]...), p[len(p)-1]-1, 0xff, 0xff)
 		in.guard = append(in.guard, [2][]byte{below, []byte("below")})
-		if end := dbm.PrefixToEnd(p); end != nil {
+		if end := prefixEnd(p); end != nil {
 			above = end
 			in.guard = append(in.guard, [2][]byte{above, []byte("above")})
 		}
 		for _, g := range in.guard {
 			in.raw.Set(g[0], g[1])
+		}
+	}
+	if !(in.be.backend == dbm.BoltBackend || in.be.backend == dbm.BadgerBackend) || !in.skipStatics {
+		for _, s := range in.statics() {
+			in.db.Set(s.K, s.V)
+		}
+	}
+	return nil
+}
+
+// prefixEnd is the smallest key greater than every key with the prefix (nil: none).
+func prefixEnd(p []byte) []byte {
+	for i := len(p) - 1; i >= 0; i-- {
+		if p[i] < 0xff {
+			e := append([]byte{}, p[:i+1]...)
+			e[i]++
+			return e
 		}
 	}
 	return nil
@@ -238,6 +287,8 @@ func (in *kvInst) refMap(st kvState) []kvPair {
 			ps = append(ps, kvPair{in.keys[i], kvVal(v)})
 		}
 	}
+	ps = append(ps, in.statics()...)
+	sort.Slice(ps, func(i, j int) bool { return bytes.Compare(ps[i].K, ps[j].K) < 0 })
 	return ps
 }
 
@@ -384,18 +435,23 @@ func (in *kvInst) query(a kvAct) string {
 		return ""
 	}
 	var got []kvPair
+	var want []kvPair
+	for _, r := range a.Res {
+		want = append(want, kvPair{in.key(r[0]), kvVal(r[1])})
+	}
+	// the statics lie outside the abstract key set: the reference adds those inside the bounds
 	if a.Op == "iter" {
 		lo := in.bound(a.Lo)
 		if lo == nil {
 			lo = []byte{}
 		}
 		got = collect(in.db.Iterator(lo, in.bound(a.Hi)))
+		want = append(want, refFwd(in.statics(), lo, in.bound(a.Hi))...)
+		sort.Slice(want, func(i, j int) bool { return bytes.Compare(want[i].K, want[j].K) < 0 })
 	} else {
 		got = collect(in.db.ReverseIterator(in.bound(a.Lo), in.bound(a.Hi)))
-	}
-	var want []kvPair
-	for _, r := range a.Res {
-		want = append(want, kvPair{in.key(r[0]), kvVal(r[1])})
+		want = append(want, refRev(in.statics(), in.bound(a.Lo), in.bound(a.Hi))...)
+		sort.Slice(want, func(i, j int) bool { return bytes.Compare(want[i].K, want[j].K) > 0 })
 	}
 	if !samePairs(got, want, in.be.ordered) {
 		return fmt.Sprintf("%s(%d,%d): got [%s], the specification says [%s]", a.Op, a.Lo, a.Hi, pairsString(got), pairsString(want))
@@ -456,7 +512,7 @@ func c19Child(c *core.Ctx) {
 		os.Exit(3)
 	}
 	be, tb := kvBackends[j.Backend], kvTables[j.Table]
-	in := &kvInst{be: be, keys: tb.keys[:j.NKeys], table: tb.name, dir: j.Dir}
+	in := &kvInst{be: be, keys: tb.keys[:j.NKeys], allKeys: tb.keys, table: tb.name, dir: j.Dir}
 	emptyKey := tb.name == "empty-key"
 	var res kvJobResult
 	seqs := kvSeqs(g, c.Seed, j.Walks, j.Full, j.Idx)
@@ -526,7 +582,7 @@ func c19Child(c *core.Ctx) {
 		}
 		if bad != "" {
 			key := "mismatch/" + be.name
-			if !be.ordered && strings.Contains(bad, "terator(") {
+			if !be.ordered && (strings.Contains(bad, "terator(") || strings.HasPrefix(bad, "iter(") || strings.HasPrefix(bad, "riter(")) {
 				key = "sharded-iteration/" + string(be.backend)
 			}
 			if emptyKey && kvUsesKey1(trace) && (be.backend == dbm.BoltBackend || be.backend == dbm.BadgerBackend) && be.prefix == nil {
